@@ -54,7 +54,7 @@ class C08(CheckBase):
     stubbed_components = ['results of faulted open/read/write calls (decided by simkernel)']
 
     def budget(self, tier):
-        return 5000 if tier == 'quick' else 80000
+        return 12000 if tier == 'quick' else 120000
 
     def time_cap(self, tier):
         return 600 if tier == 'quick' else 5400
